@@ -4,6 +4,7 @@ COQ_IMPORTS = "From SV Require Import Model.Topology."
 READY = True
 RULE = ("cases = (h,n,rf): quick = every n in 0..1200, boundary n (4095..4097, 21844/5, 32767..32769, 43688..43691, 65521, 65533..65535) and 1500 random n; "
         "thorough = every n in 0..65535; h in {0,n-2,n-1,n,65535,2 random}; rf in {0,1,2,3,11,12,13,255}. "
+        "c24p = pairs rf1<rf2 (all pairs in 0..14, and {1,2,5,12} x 255) on one (h,n), n in 0..40 (thorough 0..300), boundary n and 60 (2000) random n, 6-7 h each: the smaller result must be a prefix of the larger. "
         "A case is non-trivial when n>0, rf>1 (the jump loop runs). distinct = distinct case strings.")
 ASSUMPTIONS = ["Model/Topology.v is hand-written from crates/sierradb-topology/src/lib.rs:56-114; tie = this differential run",
                "ArrayVec capacity 12 = MAX_REPLICATION_FACTOR is modelled as the constant MAX_RF"]
@@ -15,6 +16,16 @@ def parse_list(o):
     if not (o.startswith("[") and o.endswith("]")): return None
     return [int(x) for x in o[1:-1].split(",") if x]
 def monitor(c, o):
+    if c.startswith("c24p "):
+        t = c.split(); h, n, r1, r2 = int(t[1]), int(t[2]), int(t[3]), int(t[4])
+        o1, o2 = o.split("|")
+        for rf, oo in ((r1, o1), (r2, o2)):
+            m = monitor(f"c24 {h} {n} {rf}", oo)
+            if m: return m
+        a, b = parse_list(o1), parse_list(o2)
+        if b[:len(a)] != a:
+            return ("prefix", f"distribute_partition({h},{n},{r1}) = {a} is not a prefix of distribute_partition({h},{n},{r2}) = {b}")
+        return None
     h, n, rf = parse(c)
     if o == "PANIC": return ("panic", f"distribute_partition({h},{n},{rf}) panicked")
     r = parse_list(o)
@@ -25,16 +36,21 @@ def monitor(c, o):
     if r and r[0] != h % n: return ("first", f"distribute_partition({h},{n},{rf}) first is {r[0]}, expected {h % n}")
     return None
 def nontrivial(c, o):
+    if c.startswith("c24p "): t = c.split(); return int(t[2]) > 0 and int(t[4]) > 1
     h, n, rf = parse(c); return n > 0 and rf > 1
 def shrink_key(c):
+    if c.startswith("c24p "): t = c.split(); return (int(t[2]), int(t[4]), int(t[1]), int(t[3]))
     h, n, rf = parse(c); return (n, rf, h)
 def coq_goal(c, e):
     if e is None or e == "PANIC": return None
+    if c.startswith("c24p "): return None
     h, n, rf = parse(c)
     return f"distribute {h} {n} {rf} = [{'; '.join(str(x) for x in parse_list(e))}]"
 def distribution(pairs):
     d = {"n=0": 0, "n<=2": 0, "n<=43689": 0, "n>43689": 0, "rf<=1": 0, "rf>=12": 0, "panic": 0}
+    d["prefix-pairs"] = 0
     for c, o in pairs:
+        if c.startswith("c24p "): d["prefix-pairs"] += 1; continue
         h, n, rf = parse(c)
         d["n=0" if n == 0 else "n<=2" if n <= 2 else "n<=43689" if n <= 43689 else "n>43689"] += 1
         if rf <= 1: d["rf<=1"] += 1
